@@ -1,7 +1,121 @@
-(* C12 placeholder: theorems land with Proofs/WorldProofs.v *)
-From Coq Require Import ZArith List.
-From V Require Import Result World.
+(* C12 -- deferred index maintenance is unobservable: the answer to any lookup depends only on the current structure,
+   never on which lookups were issued earlier, when, or how many edits accumulated between them; replaying one edit
+   history with any placement of additional lookups gives the same final answers as replaying it with none.
+   Model: Model/LazyTree.v (first-use build / incremental replay / rebuild chosen by the number of pending events),
+   Model/World.v (tree, tree_add_ev / tree_disc_ev, force, all lookups thread the world), Model/WorldRun.v (query),
+   Proofs/ScheduleProofs.v (item, run_sched, ops_of, same_answers), Model/WorldGuard.v.
+   A schedule is a list of items: IOp o (an edit; OTouch n forces one index) or IQuery scope method kind range (any
+   lookup of WorldRun.query).  ops_of erases the queries and the touches.
+   Only property theorems here; proofs in Proofs/SyncProofs.v, LookupProofs.v, ScheduleProofs.v, WorldInv.v.
+
+   same_answers w1 w2 (ScheduleProofs.v) says that ALL of these agree between w1 and w2:
+     - every id-valued lookup f at its scope (id_lookup f D: bi_blocks_on / _at / _on_off / _at_off on a byte interval;
+       sec_bis_on / sec_bis_at / sec_blocks_on / sec_blocks_at on a section; their mod_lift and ir_lift): the two
+       answers have the same elements and neither has duplicates (the API returns unordered iterables);
+     - Section.address / size: snd (sec_extent w1 s) = snd (sec_extent w2 s);
+     - sections_on / sections_at at module and IR scope: equal lists;
+     - bi_symx_at / bi_symx_at_off: equal lists; sec_symx_at: the same triples;
+     - symbols_named, references, get_by_uuid: equal. *)
+From Coq Require Import ZArith List Bool.
+From V Require Import Result LazyTree World WorldGuard WorldRun ForestDefs InvDefs WorldInv WorldProps.
+From V Require Import SyncProofs LookupBase LookupProofs ScheduleProofs.
 Import ListNotations.
-Theorem C12_new_detached : forall w n k u a s f nm p, par (step' w (ONew n k u a s f nm p)) n = None.
-Proof. intros. unfold step', step, par, getn. destruct k; cbn; unfold upd; rewrite Z.eqb_refl; reflexivity. Qed.
-Print Assumptions C12_new_detached.
+Open Scope Z_scope.
+
+(* two schedules with the same edits (in the same order), lookups and index forcings placed anywhere *)
+Theorem C12_schedule_independent : forall its1 its2 : list item, ops_of its1 = ops_of its2 ->
+  same_answers (fst (run_sched w0 [] its1)) (fst (run_sched w0 [] its2)).
+Proof. exact schedule_independent_all. Qed.
+
+(* in particular: against the replay with no lookup at all *)
+Theorem C12_lookups_do_not_interfere : forall its : list item,
+  same_answers (fst (run_sched w0 [] its)) (fst (run_guarded w0 [] (ops_of its))).
+Proof. exact lookups_do_not_interfere_all. Qed.
+
+(* spelled out for the id-valued lookups *)
+Theorem C12_same_ids : forall its1 its2, ops_of its1 = ops_of its2 ->
+  forall f D, id_lookup f D -> forall x q, D (fst (run_sched w0 [] its1)) x ->
+    same_set (snd (f (fst (run_sched w0 [] its1)) x q)) (snd (f (fst (run_sched w0 [] its2)) x q)) /\
+    NoDup (snd (f (fst (run_sched w0 [] its1)) x q)) /\
+    NoDup (snd (f (fst (run_sched w0 [] its2)) x q)).
+Proof. intros its1 its2 E. exact (sa_ids _ _ (schedule_independent_all its1 its2 E)). Qed.
+
+(* ... and for Section.address / Section.size *)
+Theorem C12_same_extent : forall its1 its2, ops_of its1 = ops_of its2 ->
+  forall s, kindof (fst (run_sched w0 [] its1)) s = KSec ->
+    snd (sec_extent (fst (run_sched w0 [] its1)) s) = snd (sec_extent (fst (run_sched w0 [] its2)) s).
+Proof. intros its1 its2 E. exact (sa_extent _ _ (schedule_independent_all its1 its2 E)). Qed.
+
+(* the structure itself (everything except the lazy trees) and the set of created nodes do not depend on the lookups *)
+Theorem C12_struct : forall its1 its2, ops_of its1 = ops_of its2 ->
+  strip (fst (run_sched w0 [] its1)) = strip (fst (run_sched w0 [] its2)) /\
+  snd (run_sched w0 [] its1) = snd (run_sched w0 [] its2).
+Proof. exact schedule_independent_struct. Qed.
+
+(* a lookup changes nothing but lazy trees *)
+Theorem C12_lookup_only_touches_trees : forall w s m kf q,
+  strip (fst (query w s m kf q)) = strip w /\ (SyncAll w -> SyncAll (fst (query w s m kf q))).
+Proof. exact query_lk. Qed.
+
+(* the reason why: in every state of every schedule, each materialised index brought up to date by its pending
+   events denotes exactly the current intervals (InvDefs.Sync) -- whatever path `lt_get` then takes *)
+Theorem C12_sync_everywhere : forall w known, reachable_k w known -> SyncAll w.
+Proof. exact reach_sync. Qed.
+
+Theorem C12_sync_everywhere_sched : forall its, SyncAll (fst (run_sched w0 [] its)).
+Proof. exact sync_sched. Qed.
+
+Theorem C12_force_gives_current : forall w known n w1 idx, reachable_k w known -> force w n = (w1, idx) ->
+  NoDup idx /\ (forall i, In i idx <-> In i (cur_ivs w n)) /\ agree w w1 /\ SyncAll w1.
+Proof. intros w known n w1 idx R. exact (force_spec w n w1 idx (reach_sync w known R)). Qed.
+
+(* the full invariant holds along every schedule *)
+Theorem C12_invariant_along_schedules : forall its,
+  InvAll (fst (run_sched w0 [] its)) (snd (run_sched w0 [] its)).
+Proof. exact invall_sched. Qed.
+
+(* non-vacuity: one edit history (12 construction steps, 11 edits of offsets, sizes, addresses and two block moves),
+   replayed (1) with no lookup, (2) with three lookups after every single step, (3) with a burst of lookups after the
+   construction, another after two edits, one forced index, and then nine edits -- more pending events than the
+   interval has blocks -- before the final lookups.  The twelve final answers (blocks on/at at IR scope, offset
+   variants, intervals on/at, sections on/at, the section's extent, code / data variants, an interval scope) agree;
+   the raw replies of (1) and (2) differ only in the order of an unordered reply. *)
+Example C12_example :
+  let q := {| qstart := 0; qstop := 1000; qstep := 1 |} in
+  let build := [ONew 1 KIR 101 None 0 0 0 PNone; ONew 2 KMod 102 None 0 0 0 PNone; ONew 3 KSec 103 None 0 0 0 PNone;
+     ONew 4 KBI 104 (Some 100) 50 0 0 PNone; ONew 5 KCode 105 None 10 0 0 PNone; ONew 6 KData 106 None 0 10 0 PNone;
+     ONew 7 KData 107 None 5 20 0 PNone; ONew 8 KBI 108 (Some 300) 8 0 0 PNone;
+     OModAppend 1 2; OSetParent 3 (Some 2); OSet 3 [KBI] SUpdate [[4; 8]]; OSet 4 [KCode; KData] SUpdate [[5; 6]; [7]]] in
+  let edits := [OAttrOff 5 30; OAttrSize 6 3; OAttrOff 7 40; OAttrAddr 4 (Some 200); OAttrOff 6 12; OAttrSize 5 2;
+     OSetParent 7 (Some 8); OAttrOff 7 1; OAttrAddr 8 (Some 150); OSetParent 7 (Some 4); OAttrSize 4 60] in
+  let look := [IQuery 1 0 0 q; IQuery 3 10 0 q; IQuery 4 3 0 q] in
+  let its1 := map IOp (build ++ edits) in
+  let its2 := flat_map (fun o => IOp o :: look) (build ++ edits) in
+  let its3 := map IOp build ++ look ++ map IOp (firstn 2 edits) ++ look ++ [IOp (OTouch 4)] ++ map IOp (skipn 2 edits) in
+  let final : list (id * Z * Z) :=
+    [(1,0,0); (1,1,0); (4,2,0); (4,3,0); (1,4,0); (1,5,0); (1,6,0); (1,7,0); (1,0,1); (1,0,2); (8,0,0)] in
+  let answers (w : world) := map (fun t => snd (query w (fst (fst t)) (snd (fst t)) (snd t) q)) final in
+  let w1 := fst (run_sched w0 [] its1) in
+  let w2 := fst (run_sched w0 [] its2) in
+  let w3 := fst (run_sched w0 [] its3) in
+  let expected := [[5; 6; 7]; [5; 6; 7]; [5; 6; 7]; [5; 6; 7]; [4; 8]; [4; 8]; [3]; [3]; [5]; [6; 7]; []] in
+  all_guarded_ok w0 [] (build ++ edits) = true /\
+  ops_of its2 = ops_of its1 /\ ops_of its3 = ops_of its1 /\
+  map answer_ids (answers w1) = expected /\ map answer_ids (answers w2) = expected /\
+  map answer_ids (answers w3) = expected /\
+  (snd (query w1 3 10 0 q), snd (query w2 3 10 0 q), snd (query w3 3 10 0 q))
+  = (L [A 0; L [A 150; A 110]], L [A 0; L [A 150; A 110]], L [A 0; L [A 150; A 110]]) /\
+  (nth 0 (answers w1) (A 0), nth 0 (answers w2) (A 0)) = (L [A 0; L [A 5; A 6; A 7]], L [A 0; L [A 6; A 5; A 7]]).
+Proof. vm_compute. repeat split. Qed.
+
+Print Assumptions C12_schedule_independent.
+Print Assumptions C12_lookups_do_not_interfere.
+Print Assumptions C12_same_ids.
+Print Assumptions C12_same_extent.
+Print Assumptions C12_struct.
+Print Assumptions C12_lookup_only_touches_trees.
+Print Assumptions C12_sync_everywhere.
+Print Assumptions C12_sync_everywhere_sched.
+Print Assumptions C12_force_gives_current.
+Print Assumptions C12_invariant_along_schedules.
+Print Assumptions C12_example.
